@@ -869,6 +869,137 @@ mod legacy {
     }
 }
 
+
+// ---------------------------------------------------------------- exhaustive small scope
+// All commands built from tasks of at most two statements (over emit / request / stream loop / spawn with
+// immediate join and/or abort of the handle / self-abort / self-wake), an optional extra task, and one
+// of five wrappers; under ALL input sequences up to length 3 over {resolve the oldest live request,
+// resolve the newest live request, drop the oldest live request, abort handle 1, spawn a task from
+// outside}, inspecting after every input.  `stride` keeps every stride-th case (quick tier).
+fn enum_stmts() -> Vec<Box<dyn Fn(Task) -> Task>> {
+    let mut v: Vec<Box<dyn Fn(Task) -> Task>> = vec![];
+    v.push(Box::new(|k| Task::Emit(100, Expr::K(1), Box::new(k))));
+    v.push(Box::new(|k| Task::Req(0, Expr::K(0), 0, Box::new(k))));
+    v.push(Box::new(|k| Task::Notify(0, Expr::K(2), Box::new(k))));
+    v.push(Box::new(|k| Task::ForEach(0, Expr::K(0), 0, Box::new(Task::Ret), Box::new(k))));
+    v.push(Box::new(|k| Task::ForEach(0, Expr::K(0), 0, Box::new(Task::Emit(101, Expr::V(0), Box::new(Task::Ret))), Box::new(k))));
+    v.push(Box::new(|k| Task::ForEach(0, Expr::K(0), 0, Box::new(Task::AbortC(1, Box::new(Task::Ret))), Box::new(k))));
+    for child in 0..3 {
+        for usage in 0..4 {
+            v.push(Box::new(move |k| {
+                let c = match child { 0 => Task::Ret, 1 => Task::Req(0, Expr::K(1), 0, Box::new(Task::Emit(102, Expr::V(0), Box::new(Task::Ret)))), _ => Task::Emit(103, Expr::K(3), Box::new(Task::Ret)) };
+                let rest = match usage { 0 => k, 1 => Task::Join(8, Box::new(k)), 2 => Task::AbortT(8, Box::new(k)), _ => Task::AbortT(8, Box::new(Task::Join(8, Box::new(k)))) };
+                Task::Spawn(Box::new(c), 8, Box::new(rest))
+            }));
+        }
+    }
+    v.push(Box::new(|k| Task::AbortC(1, Box::new(k))));
+    v.push(Box::new(|k| Task::Yield(1, Box::new(k))));
+    v.push(Box::new(|k| Task::Both(0, Expr::K(0), 0, 0, Expr::K(1), 1, Box::new(k))));
+    v.push(Box::new(|k| Task::Race(0, Expr::K(0), 0, Expr::K(1), 0, Box::new(k))));
+    v
+}
+fn retag_task(t: &mut Task, n: &mut u64) {
+    let mut fresh = |n: &mut u64| { *n += 1; *n };
+    match t {
+        Task::Ret => {}
+        Task::Emit(_, _, k) | Task::Join(_, k) | Task::AbortT(_, k) | Task::Yield(_, k) | Task::AbortC(_, k) => retag_task(k, n),
+        Task::Notify(tg, _, k) | Task::Req(tg, _, _, k) => { *tg = fresh(n); retag_task(k, n) }
+        Task::ForEach(tg, _, _, b, k) => { *tg = fresh(n); retag_task(b, n); retag_task(k, n) }
+        Task::Spawn(c, _, k) => { retag_task(c, n); retag_task(k, n) }
+        Task::Both(t1, _, _, t2, _, _, k) => { *t1 = fresh(n); *t2 = fresh(n); retag_task(k, n) }
+        Task::Race(t1, _, t2, _, _, k) => { *t1 = fresh(n); *t2 = fresh(n); retag_task(k, n) }
+    }
+}
+fn enum_commands() -> Vec<Cmd> {
+    let st = enum_stmts();
+    let mut one: Vec<Task> = vec![Task::Ret];
+    for f in &st { one.push(f(Task::Ret)); }
+    let mut two: Vec<Task> = vec![];
+    for f in &st { for g in &st { two.push(f(g(Task::Ret))); } }
+    let mut bases: Vec<Cmd> = vec![];
+    for m in &one { bases.push(Cmd::New(m.clone(), vec![])); for e in one.iter().skip(1) { bases.push(Cmd::New(m.clone(), vec![e.clone()])); } }
+    for m in &two { bases.push(Cmd::New(m.clone(), vec![])); }
+    let mut out = vec![];
+    for b in bases {
+        for w in 0..5 {
+            let mut c = match w {
+                0 => b.clone(),
+                1 => Cmd::Abortable(1, Box::new(b.clone())),
+                2 => Cmd::Then(Box::new(Cmd::Abortable(1, Box::new(b.clone()))), Box::new(Cmd::New(Task::Emit(104, Expr::K(4), Box::new(Task::Ret)), vec![]))),
+                3 => Cmd::All(vec![Cmd::Abortable(1, Box::new(b.clone())), Cmd::New(Task::Req(0, Expr::K(5), 0, Box::new(Task::Emit(105, Expr::V(0), Box::new(Task::Ret)))), vec![])]),
+                _ => Cmd::IdEff(Box::new(Cmd::Abortable(1, Box::new(b.clone())))),
+            };
+            let mut n = 0u64; retag_cmd(&mut c, &mut n);
+            out.push(c);
+        }
+    }
+    out
+}
+fn retag_cmd(c: &mut Cmd, n: &mut u64) {
+    match c {
+        Cmd::New(m, ex) => { retag_task(m, n); for t in ex { retag_task(t, n); } }
+        Cmd::Then(a, b) | Cmd::And(a, b) => { retag_cmd(a, n); retag_cmd(b, n); }
+        Cmd::All(cs) => for x in cs { retag_cmd(x, n); },
+        Cmd::MapEff(_, x) | Cmd::MapEv(_, x) | Cmd::IdEff(x) | Cmd::IdEv(x) | Cmd::Into(x) | Cmd::Abortable(_, x) => retag_cmd(x, n),
+        Cmd::SendR(..) | Cmd::SendS(..) => {}
+    }
+}
+fn enum_schedules() -> Vec<Vec<u8>> {
+    let mut out = vec![vec![]];
+    let mut frontier = vec![vec![]];
+    for _ in 0..3 { let mut next = vec![]; for s in &frontier { for a in 0..5u8 { let mut t: Vec<u8> = s.clone(); t.push(a); next.push(t); } } out.extend(next.clone()); frontier = next; }
+    out
+}
+fn run_enum_case(c: &Cmd, sched: &[u8]) -> (Vec<Action>, Vec<String>) {
+    let aborts: Aborts = Default::default();
+    let mut cmd = build(c, &Env::default(), &aborts);
+    let mut held: Vec<Held> = vec![];
+    let mut acts: Vec<Action> = vec![]; let mut obs: Vec<String> = vec![];
+    let mut inspect = |cmd: &mut C, held: &mut Vec<Held>, acts: &mut Vec<Action>, obs: &mut Vec<String>| {
+        let es: Vec<Eff> = cmd.effects().collect(); acts.push(Action::Effects); obs.push(format!("OEffects {}", oeffs(es, held)));
+        let evs: Vec<Ev> = cmd.events().collect(); acts.push(Action::Events); obs.push(format!("OEvents {}", oevs(&evs)));
+        let d = cmd.is_done(); acts.push(Action::IsDone); obs.push(format!("ODone {} {}", if d { "true" } else { "false" }, live(cmd)));
+    };
+    inspect(&mut cmd, &mut held, &mut acts, &mut obs);
+    for (i, a) in sched.iter().enumerate() {
+        let livei: Vec<usize> = held.iter().enumerate().filter(|(_, h)| h.req.is_some()).map(|(i, _)| i).collect();
+        let act = match a {
+            0 => match livei.first() { Some(&j) => Action::Resolve(held[j].tag, held[j].val, occ_of(&held, j), 7 + i as u64), None => Action::Resolve(77, 0, 0, 1) },
+            1 => match livei.last() { Some(&j) => Action::Resolve(held[j].tag, held[j].val, occ_of(&held, j), 20 + i as u64), None => Action::Resolve(77, 0, 0, 1) },
+            2 => match livei.first() { Some(&j) => Action::DropReq(held[j].tag, held[j].val, occ_of(&held, j)), None => Action::DropReq(77, 0, 0) },
+            3 => Action::Abort(1),
+            _ => Action::Spawn(Task::Req(900 + i as u64, Expr::K(0), 0, Box::new(Task::Emit(106, Expr::V(0), Box::new(Task::Ret))))),
+        };
+        let o = match &act {
+            Action::Resolve(t, v, o, out) => match find(&held, *t, *v, *o) { Some(j) if held[j].req.is_some() => format!("OResolve {}", rcode(held[j].req.as_mut().unwrap().resolve(*out))), _ => "OResolve 3".into() },
+            Action::DropReq(t, v, o) => { if let Some(j) = find(&held, *t, *v, *o) { held[j].req = None; } "ONone".into() }
+            Action::Abort(n) => { for (m, h) in aborts.lock().unwrap().iter() { if m == n { h(); } } "ONone".into() }
+            Action::Spawn(t) => { let (t, ab) = (t.clone(), aborts.clone()); cmd.spawn(move |ctx| async move { let mut e = Env::default(); exec(&t, &mut e, &ctx, &ab).await }); "ONone".into() }
+            _ => "ONone".into(),
+        };
+        acts.push(act); obs.push(o);
+        inspect(&mut cmd, &mut held, &mut acts, &mut obs);
+    }
+    (acts, obs)
+}
+fn run_enum(stride: usize, offset: usize) {
+    let cmds = enum_commands(); let scheds = enum_schedules();
+    let total = cmds.len() * scheds.len();
+    eprintln!("enum: {} commands x {} schedules = {} cases, stride {}", cmds.len(), scheds.len(), total, stride);
+    let mut idx = 0usize;
+    for c in &cmds { for s in &scheds {
+        idx += 1;
+        if (idx + offset) % stride != 0 { continue; }
+        let r = std::panic::catch_unwind(std::panic::AssertUnwindSafe(|| run_enum_case(c, s)));
+        match r {
+            Ok((acts, obs)) => println!("{{\"idx\":{},\"seed\":0,\"drained\":false,\"host\":\"direct\",\"prog\":{},\"handlers\":\"[]\",\"acts\":{},\"impl\":{},\"size\":{},\"depth\":{},\"hist\":{{}},\"ahist\":{{}},\"enum\":true}}",
+                idx, json_str(&c.coq()), json_str(&coq_list(acts.iter().map(|a| a.coq()).collect())), json_str(&coq_list(obs)), c.size(), c.depth()),
+            Err(_) => println!("{{\"idx\":{},\"seed\":0,\"drained\":false,\"host\":\"direct\",\"prog\":{},\"handlers\":\"[]\",\"acts\":\"[AIsDone]\",\"impl\":\"[OPanic]\",\"size\":0,\"depth\":0,\"hist\":{{}},\"ahist\":{{}},\"enum\":true,\"panic\":true}}", idx, json_str(&c.coq())),
+        }
+    } }
+}
+
 fn json_str(s: &str) -> String { format!("\"{}\"", s.replace('\\', "\\\\").replace('"', "\\\"")) }
 
 fn main() {
@@ -878,6 +1009,7 @@ fn main() {
     let count: usize = args.get(2).and_then(|s| s.parse().ok()).unwrap_or(100);
     let only: Option<usize> = args.get(3).and_then(|s| s.parse().ok());
     let mode: String = args.get(4).cloned().unwrap_or_else(|| "mix".into());
+    if mode == "enum" { run_enum(count.max(1), seed as usize); return; }
     for idx in 0..count {
         // one independent generator state per case so that a single case can be regenerated
         let mut g = Gen { rng: Rng::new(seed.wrapping_mul(1_000_003).wrapping_add(idx as u64)), next_tag: 0, next_name: 0, names: vec![], ev_tags: vec![], legacy: false, scope: vec![] };
